@@ -162,14 +162,70 @@ def run_kani(spec, tier):
                 r.wall_s = time.time() - t0
                 r.raw = txt[-8000:]
                 return r
+        interface_failures = []
+        if not parsed and spec['crate'] == 'gk':
+            # the harness text (derived from the definition and the documented generated interface) no longer
+            # compiles against the emitted module because an item of that interface is missing or has other fields:
+            # the emitted module does not offer what the definition promises (e.g. a removed field is not handed back).
+            # Those harnesses are reported and left out (GK_SKIP); the others still run.
+            skipped = []
+            for attempt in range(3):
+                txt = out + err
+                locs = re.findall(r'^error\[(E0609|E0560|E0063|E0026|E0027|E0599|E0412|E0422|E0425|E0433|E0061|E0308)\]: ([^\n]*)\n\s+--> [^\n]*?/out/corpus\.rs:(\d+)', txt, re.M)
+                if not locs:
+                    break
+                try:
+                    corpus = open(os.path.join(BUILD, 'gk-gen', 'corpus_harnesses.rs')).read().split('\n')
+                except Exception:
+                    corpus = []
+                fails = {}
+                for code, m, ln in locs:
+                    ln = int(ln)
+                    hname, mod = None, None
+                    for i in range(min(ln, len(corpus)) - 1, -1, -1):
+                        mm = re.match(r'\s*pub fn (c\d\d_\w+)\(\)', corpus[i])
+                        if mm and hname is None:
+                            hname = mm.group(1)
+                        mm = re.match(r'pub mod (\w+) \{', corpus[i])
+                        if mm:
+                            mod = mm.group(1)
+                            break
+                    if hname and mod:
+                        fails.setdefault('%s::h::%s' % (mod, hname), []).append('%s: %s (corpus.rs:%d)' % (code, m, ln))
+                new_skips = [h for h in fails if h not in skipped]
+                if not new_skips:
+                    break
+                for h in new_skips:
+                    props = failure_props(h, [])
+                    msg = '%s: the emitted module lacks part of the generated interface for this definition: %s' % (' '.join(props), fails[h][0])
+                    interface_failures.append({'function': h, 'message': msg, 'props': props, 'tags': props,
+                                               'gk_compile': {'module': h.split('::')[0], 'harness': h, 'errors': fails[h][:6]}, 'clauses': [msg]})
+                skipped += new_skips
+                env2 = dict(env, GK_SKIP=','.join(skipped))
+                cmd, rc, out, err, wall, to = kani_run(crate_dir, target_dir, spec['harnesses'], flags, spec.get('timeout', 3000), env=env2)
+                parsed = parse_kani(out)
+                if parsed:
+                    break
+            if interface_failures and not parsed:
+                r.status = VIOLATION
+                r.reason = 'the emitted modules no longer offer the interface the harnesses (derived from the definitions) rely on'
+                r.obligations, r.discharged = len(interface_failures), 0
+                r.failures = interface_failures
+                r.wall_s = time.time() - t0
+                r.raw = (out + err)[-8000:]
+                return r
         if not parsed:
             r.status = INCONCLUSIVE
             r.reason = 'cargo kani produced no harness result (rc=%s): %s' % (rc, (err or out)[-1500:])
             r.wall_s = time.time() - t0
             r.raw = (out + err)[-8000:]
             return r
-        os.makedirs(os.path.dirname(cache_file), exist_ok=True)
-        json.dump({'parsed': parsed, 'wall_s': wall, 'tail': out[-4000:]}, open(cache_file, 'w'))
+        if not interface_failures:
+            os.makedirs(os.path.dirname(cache_file), exist_ok=True)
+            json.dump({'parsed': parsed, 'wall_s': wall, 'tail': out[-4000:]}, open(cache_file, 'w'))
+        else:
+            r.extra['interface_failures'] = interface_failures
+            r.extra['gk_skip'] = ','.join(skipped)
     r.raw = out[-8000:]
     expect = spec.get('expect', {})
     harness_rows = []
@@ -209,9 +265,12 @@ def run_kani(spec, tier):
             r.discharged += max(res['checks'] - max(res['failed'], 1), 0)
             r.failures.append({'function': h, 'harness': h, 'message': why, 'props': failure_props(h, res['failed_checks']),
                                'failed_checks': res['failed_checks'][:6], 'tags': [], 'crate': spec['crate'],
-                               'flags': flags,
+                               'flags': flags, 'env': ({'GK_SKIP': r.extra['gk_skip']} if r.extra.get('gk_skip') else {}),
                                'repo_file': next((fc[1] for fc in res['failed_checks'] if fc[1].startswith(REPO)), None),
                                'repo_line': next((fc[2] for fc in res['failed_checks'] if fc[1].startswith(REPO)), None)})
+    for f in r.extra.pop('interface_failures', []):
+        r.failures.append(f)
+        r.obligations += 1
     if r.failures:
         r.status = VIOLATION
         r.reason = '%d harness(es) failed' % len(r.failures)
@@ -324,7 +383,7 @@ def make_replay(pid, spec, r, f, base):
     playback = ''
     out = ''
     if not f.get('no_playback'):
-        rc, out, err, wall, to = _sh(cmd, 1500, cwd=crate_dir, env=dict(spec.get('env', {}), CARGO_TARGET_DIR=target_dir, GK_TIER=tier_of(spec)))
+        rc, out, err, wall, to = _sh(cmd, 1500, cwd=crate_dir, env=dict(dict(spec.get('env', {}), **f.get('env', {})), CARGO_TARGET_DIR=target_dir, GK_TIER=tier_of(spec)))
         blocks = re.findall(r'```\n(.*?)```', out, re.S)
         blocks = [b for b in blocks if 'Check for `cover`' not in b]
         if blocks:
